@@ -1,0 +1,46 @@
+//! Verification hooks, compiled only with `--cfg maybenot_verif`. Observation
+//! only: a thread-local log of every event the simulator handed to a framework
+//! instance and of every action it got back and acted on, in processing order.
+
+use maybenot::{TriggerAction, TriggerEvent};
+use std::cell::{Cell, RefCell};
+use std::time::Instant;
+
+/// One record of the log.
+#[derive(Debug, Clone, PartialEq)]
+pub enum Rec {
+    /// the simulator triggered `event` in the framework of one side at `time`.
+    Event {
+        is_client: bool,
+        time: Instant,
+        event: TriggerEvent,
+    },
+    /// the framework returned `action` for the preceding `Event` record.
+    Action {
+        is_client: bool,
+        time: Instant,
+        action: TriggerAction,
+    },
+}
+
+thread_local! {
+    static ENABLED: Cell<bool> = const { Cell::new(false) };
+    static LOG: RefCell<Vec<Rec>> = const { RefCell::new(Vec::new()) };
+}
+
+/// Turn logging on or off for the current thread (off by default).
+pub fn enable(on: bool) {
+    ENABLED.with(|e| e.set(on));
+    LOG.with(|l| l.borrow_mut().clear());
+}
+
+/// Take the records logged so far on the current thread.
+pub fn drain() -> Vec<Rec> {
+    LOG.with(|l| std::mem::take(&mut *l.borrow_mut()))
+}
+
+pub(crate) fn log(r: Rec) {
+    if ENABLED.with(|e| e.get()) {
+        LOG.with(|l| l.borrow_mut().push(r));
+    }
+}
